@@ -510,7 +510,7 @@ def simplify_build(seed, tier):
     g = Gen(seed)
     r = g.r
     names = ["x", "y", "z", "u", "v"][: r.randint(1, 5)]
-    fam = r.choice(["random", "duplicates", "scaled", "combination", "via_context", "tight", "infeasible"])
+    fam = r.choice(["random", "duplicates", "scaled", "combination", "via_context", "tight", "infeasible", "shared_with_context"])
     base = [g.term(names, 1, 3) for _ in range(r.randint(1, 4))]
     ctx = []
     if fam == "duplicates":
@@ -537,6 +537,9 @@ def simplify_build(seed, tier):
     if r.random() < 0.3 and not ctx:
         ctx = [g.term(names, 1, 2)]
     r.shuffle(base)
+    if fam == "shared_with_context":
+        # a term of the list that also is, verbatim, a term of the context (simplify removes it first), in any position
+        ctx = [base[r.randrange(len(base))].copy()] + ([g.term(names, 1, 2)] if r.random() < 0.3 else [])
     return {"op": "simplify", "family": fam, "terms": tl_data(base[:6]), "context": tl_data(ctx)}
 
 
@@ -608,6 +611,13 @@ def merge_build(seed, tier):
             k0 = sorted(t.variables, key=str)[0]
             near = g.PT({k: (v * (1 + r.choice([5e-6, -5e-6, 2e-6])) if k == k0 else v) for k, v in t.variables.items()}, t.constant)
             c2 = type(c2)(c2.a, c2.g | g.PTL([near]), c2.inputvars, c2.outputvars, simplify=False)
+    if r.random() < 0.3 and c1.g.terms:
+        # a different guarantee over the same variables with the same constant: one coefficient changed outright
+        t = c1.g.terms[0]
+        if len(t.variables) >= 2 and {v.name for v in t.vars} <= {v.name for v in c2.inputvars + c2.outputvars}:
+            k0 = r.choice(sorted(t.variables, key=str))
+            other = g.PT({k: (v * r.choice([-1.5, 2.0, 0.5, -1.0]) if k == k0 else v) for k, v in t.variables.items()}, t.constant)
+            c2 = type(c2)(c2.a, c2.g | g.PTL([other]), c2.inputvars, c2.outputvars, simplify=False)
     return {"op": "merge", "c1": contract_data(c1), "c2": contract_data(c2), "swap": r.random() < 0.5}
 
 
@@ -661,7 +671,7 @@ RULES = {
     "quotient_case": "dividends built as C1 composed with a hidden partner (3/4) or random (1/4), additional_inputs subsets, simplify on/off, tactic orders; quotient soundness decided by z3; non-trivial = quotient returned with at least one term",
     "elim_case": "1-4 terms over 2-6 variables, 1-3 eliminated variables, contexts: random / chains / two-sided bounds / wrong-direction bounds; refine or relax, simplify on/off, singleton and mixed tactic orders; implication decided by z3; non-trivial = result differs from the input list",
     "refines_case": "families self, sublist, weakening, positive combinations, duplicates, equal bound, separated, unrelated, unbounded, empty left, empty right over 1-4 variables with small-integer/dyadic data; exact containment and beyond-tolerance violation both decided by z3",
-    "simplify_case": "up to 6 terms over up to 5 variables with planted duplicates, scalings, positive combinations, context-implied terms, nearly tight terms, infeasible systems; selection, equivalence and irredundancy-with-margin decided by z3",
+    "simplify_case": "up to 6 terms over up to 5 variables with planted duplicates, scalings, positive combinations, context-implied terms, terms shared verbatim with the context, nearly tight terms, infeasible systems; selection, equivalence and irredundancy-with-margin decided by z3",
     "merge_case": "pairs with shared inputs / shared outputs / disjoint interfaces, with duplicated guarantees across the two; exactness decided by z3 in both directions, both call orders",
 }
 
